@@ -1311,3 +1311,98 @@ def c18_bounded(h):
         if abs(float(v) - x) > 1e-9 * max(1.0, abs(x)):
             return {"reproduced": True, "call": "CreateFromFloat(%r)" % x, "observed": "%r = %r" % (v, float(v)), "expected": x, "evaluations": n}
     return {"reproduced": False, "evaluations": n}
+
+
+@probe("array_getvalues")
+def array_getvalues(h):
+    """C02/C10: Array.GetValues(unit) equals the database float conversion element by element, any container kind"""
+    import numpy
+    from barril.units import Array
+
+    def flat(x):
+        out = []
+        for e in x:
+            if isinstance(e, tuple):
+                out.extend(e)
+            else:
+                out.append(float(e))
+        return out
+
+    data = [0.0, 100.0, -40.0, 37.0]
+    containers = {
+        "list": list(data), "tuple": tuple(data), "ndarray": numpy.array(data),
+        "list-of-tuples": [(0.0, 100.0), (-40.0, 37.0)], "tuple-of-tuples": ((0.0, 100.0), (-40.0, 37.0)),
+    }
+    for name, vals in containers.items():
+        for u, w, cat in (("m", "km", None), ("degC", "degF", None), ("degF", "K", None), ("psi", "Pa", None), ("cm", "m", "depth")):
+            a = Array(vals, u, cat) if cat else Array(vals, u)
+            db = a.GetUnitDatabase()
+            before = repr(a.GetValues())
+            got = a.GetValues(w)
+            exp = [db.Convert(a.GetQuantityType(), u, w, x) for x in flat(vals)]
+            if name in ("list", "tuple", "ndarray"):
+                kind_ok = type(got) is type(vals)
+            else:
+                kind_ok = type(got) is type(vals) and all(isinstance(e, tuple) for e in got)
+            if not kind_ok or len(flat(got)) != len(exp) or any(not close(x, y, 1e-12) for x, y in zip(flat(got), exp)):
+                return {"reproduced": True, "call": "Array(%r, %r).GetValues(%r)" % (vals, u, w), "observed": repr(got), "expected": exp}
+            if a.GetValues(u) is not a.GetValues() or repr(a.GetValues()) != before:
+                return {"reproduced": True, "call": "Array(%r, %r).GetValues(own unit)" % (vals, u), "observed": "a different / changed container", "expected": "the stored container, unchanged"}
+            c = a.CreateCopy(unit=w)
+            if c.GetCategory() != a.GetCategory() or c.GetUnit() != w or any(not close(x, y, 1e-12) for x, y in zip(flat(c.GetValues()), exp)):
+                return {"reproduced": True, "call": "Array(%r, %r, %r).CreateCopy(unit=%r)" % (vals, u, a.GetCategory(), w), "observed": repr(c), "expected": "category %r, values %r" % (a.GetCategory(), exp)}
+    return {"reproduced": False}
+
+
+@probe("validity")
+def validity(h):
+    """C12: IsValid / CheckValidity of Scalars and Arrays depend only on the amounts (unit, container kind,
+    element order, NaN elements skipped)"""
+    import itertools
+    import math
+    import numpy
+    from barril.units import Array, Scalar
+    from barril.units.unit_database import UnitDatabase
+    from barril.units.exceptions import QuantityValidationError
+
+    db = UnitDatabase.CreateDefaultSingleton() if False else UnitDatabase.GetSingleton()
+    cats = []
+    for name, kw in (("probe depth", dict(min_value=0.0, max_value=15.0)), ("probe depth ex", dict(min_value=0.0, max_value=15.0, is_min_exclusive=True, is_max_exclusive=True, default_value=1.0)), ("probe min only", dict(min_value=2.0))):
+        if name not in db.categories_to_quantity_types:
+            db.AddCategory(name, "length", **kw)
+        cats.append(name)
+    mk = {"list": list, "tuple": tuple, "ndarray": lambda v: numpy.array(v, dtype=float)}
+    base_sets = [[0.0, 20.0, 5.0], [3.0, 4.0, 5.0], [15.0, 0.0], [float("nan"), 7.0, float("nan"), 20.0, 1.0], [float("nan"), float("nan")], [-1.0, 5.0], [2.0]]
+    for cat in cats:
+        ci = db.GetCategoryInfo(cat)
+        for vals in base_sets:
+            for perm in set(itertools.permutations(vals)) if len(vals) <= 4 else [tuple(vals), tuple(reversed(vals))]:
+                for unit, f in (("m", 1.0), ("cm", 100.0), ("km", 0.001)):
+                    scaled = [v * f for v in perm]
+                    exp = True
+                    for v in perm:
+                        if math.isnan(v):
+                            continue
+                        exp = exp and Scalar(cat, v, "m").IsValid()
+                    for kind, g in mk.items():
+                        a = Array(cat, g(scaled), unit)
+                        got = a.IsValid()
+                        if got != exp:
+                            return {"reproduced": True, "call": "Array(%r, %r, %r).IsValid()" % (cat, g(scaled), unit), "observed": got, "expected": exp}
+                        try:
+                            a2 = Array(cat, g(scaled), unit)
+                            a2.CheckValidity()
+                            ok = True
+                        except QuantityValidationError:
+                            ok = False
+                        if ok != exp:
+                            return {"reproduced": True, "call": "Array(%r, %r, %r).CheckValidity()" % (cat, g(scaled), unit), "observed": "accepted" if ok else "rejected", "expected": "accepted" if exp else "rejected"}
+        for v in (-1.0, 0.0, 2.0, 15.0, 16.0, float("nan")):
+            ok_m = Scalar(cat, v, "m").IsValid()
+            for unit, f in (("cm", 100.0), ("km", 0.001)):
+                if Scalar(cat, v * f, unit).IsValid() != ok_m:
+                    return {"reproduced": True, "call": "Scalar(%r, %r, %r).IsValid()" % (cat, v * f, unit), "observed": not ok_m, "expected": ok_m}
+            lim_ok = (not math.isnan(v)) and (ci.min_value is None or (v > ci.min_value if ci.is_min_exclusive else v >= ci.min_value)) and (ci.max_value is None or (v < ci.max_value if ci.is_max_exclusive else v <= ci.max_value))
+            if ok_m != lim_ok:
+                return {"reproduced": True, "call": "Scalar(%r, %r, 'm').IsValid()" % (cat, v), "observed": ok_m, "expected": lim_ok}
+    return {"reproduced": False}
